@@ -55,6 +55,7 @@ case_strategy = st.fixed_dictionaries({
     "regroup": st.booleans(),
     "ratio": st.sampled_from([None, None, None, 1.0]),
     "docov": st.sampled_from([False, False, True]),
+    "cli": st.sampled_from([False, False, False, True]),
 })
 
 
@@ -72,7 +73,7 @@ def build(c):
     w, hdr = skyimg.make_header(c["proj"], c["crval"], crpix, c["scale"], (rows, cols), (bmaj_px, 1.0 / bratio, bpa))
     beam = (hdr["BMAJ"], hdr["BMIN"], hdr["BPA"])
     # isolated islands: centres >= 3.3 FWHM apart; blended groups extend up to 1.6 beam widths from their cell centre
-    cell = 3.3 * c["sizeclass"] * bmaj_px + 4 + (3.4 * bmaj_px * 1.3 if c["blend_rate"] > 0 else 0.0)
+    cell = 3.3 * c["sizeclass"] * bmaj_px + 4 + (3.4 * bmaj_px * 1.3 if c["blend_rate"] > 0 else 0.0) + 3.0 * bmaj_px
     nr, nc = int((rows - 8) // cell), int((cols - 8) // cell)
     cells = [(i, j) for i in range(nr) for j in range(nc)]
     rng.shuffle(cells)
@@ -152,6 +153,28 @@ def build(c):
     for kind, px, py in special:
         island += 1
         add(px, py, island, kind, sizef=1.0)
+    # unusable members INSIDE a jointly fitted group (same island number), placed before a usable member in catalogue
+    # order: (a) an off-image entry sharing the island of an edge source, (b) an entry whose centre pixel is blank sharing
+    # the island of a grid source.  Neither is rendered into the image (the image is the model of the usable sources).
+    members = []
+    for idx, (src0, kind0, (qx, qy)) in enumerate(list(cat)):
+        if kind0 == "edge" and rng.random() < 0.7:
+            ox = -3.0 if qx < cols / 2 else cols + 4.0
+            members.append((idx, ox, qy, src0.island, "off-member"))
+        elif kind0 == "grid" and rng.random() < 0.12:
+            members.append((idx, qx + 2.6 * bmaj_px, qy, src0.island, "nan-member"))
+    for shift, (idx, mx, my, isl, kind) in enumerate(members):
+        add(mx, my, isl, kind, sizef=1.0)
+        entry = cat.pop()
+        cat.insert(idx + shift, entry)               # before its island mate in catalogue order
+        if kind == "nan-member":
+            nan_blocks.append((int(round(my - 1)) - 1, int(round(my - 1)) + 2, int(round(mx - 1)) - 1, int(round(mx - 1)) + 2))
+    for k, (src_k, _, _) in enumerate(cat):
+        src_k.uuid = "cat-%04d" % k
+    counts = {}
+    for src_k, _, _ in cat:
+        src_k.source = counts.get(src_k.island, 0)
+        counts[src_k.island] = src_k.source + 1
     return {"w": w, "hdr": hdr, "shape": (rows, cols), "cat": cat, "nan_blocks": nan_blocks, "s": s, "beam": beam}
 
 
@@ -186,7 +209,7 @@ def check_case(c):
     order = np.random.default_rng(c["seed"] + 1).permutation(len(cat))
     shuffled = [cat[k] for k in order]
     sky = [{"ra": s.ra, "dec": s.dec, "peak": s.peak_flux, "a": s.a / 3600, "b": s.b / 3600, "pa": s.pa}
-           for s, kind, _ in B["cat"] if kind != "off"]
+           for s, kind, _ in B["cat"] if kind not in ("off", "off-member", "nan-member")]
     img = skyimg.render(B["w"], B["shape"], sky)
     for (r0, r1, c0, c1) in B["nan_blocks"]:
         img[max(r0, 0):r1, max(c0, 0):c1] = np.nan
@@ -280,13 +303,65 @@ def check_case(c):
                     res.bad("rejected-sources-change-result", "%s: with the %d off-image/blank sources removed from the input the "
                             "set of returned uuids changes" % (what, nrej), **tags)
                 else:
+                    # (ra, dec, peak, a, b, pa, int, flags): unchanged to within the accuracy the property states.  Not
+                    # bit-equality: with regroup on, the default linking length is 4x the mean size of ALL catalogue
+                    # entries and rejected entries can bridge two groups, so the grouping (joint vs separate fits) of the
+                    # other sources may differ, which moves their values at the 1e-5 level.
+                    def same(p, q):
+                        dpos = float(refs.vsep(p[0], p[1], q[0], q[1])) / B["s"]
+                        return (dpos <= 0.01 and abs(p[2] - q[2]) <= 1e-3 * abs(p[2]) and abs(p[3] - q[3]) <= 1e-3 * p[3] and
+                                abs(p[4] - q[4]) <= 1e-3 * p[4] and p[7] == q[7])
                     for u in r1:
-                        if not all((x == y) or (isinstance(x, float) and abs(x - y) <= 1e-9 * max(abs(x), 1e-30))
-                                   for x, y in zip(r1[u], r2[u])):
+                        if not same(r1[u], r2[u]):
                             res.bad("rejected-sources-change-result", "%s: row %s changes when the off-image/blank sources "
                                     "are removed from the input" % (what, u), **tags)
                             break
             res.label("has-rejected")
+        # the command line: aegean IMAGE --priorized STAGE --input CATALOGUE --table OUT gives the same rows as the API
+        # called with the same catalogue file
+        if c.get("cli") and not res.violations and len(cat) <= 60:
+            from AegeanTools.catalogs import save_catalog
+            from vlib.cli import run_aegean
+            save_catalog(os.path.join(d, "input.csv"), [copy.deepcopy(s_) for s_ in shuffled])
+            catfile = os.path.join(d, "input_comp.csv")
+            # a catalogue FILE that really lacks the optional columns (psf_*, err_*) is read first, in the same process ...
+            from astropy.table import Table
+            t_ = Table.read(catfile)
+            t_.remove_columns([n for n in t_.colnames if n.startswith("psf_") or n.startswith("err_") or n in ("residual_mean", "residual_std")])
+            slim = os.path.join(d, "input_slim.csv")
+            t_.write(slim)
+            slim_out = SourceFinder().priorized_fit_islands(path, catalogue=slim, rms=rms, bkg=0.0, stage=c["stage"],
+                                                            ratio=None, doregroup=c["regroup"], docov=c["docov"], cores=1)
+            if any(o_.uuid not in by_uuid for o_ in slim_out) or (nfit and not slim_out):
+                res.bad("slim-catalogue", "%s: a catalogue file without psf/err columns returned %d rows (%d expected)" % (
+                    what, len(slim_out), nfit), **tags)
+            # ... and must not change what the complete file gives afterwards
+            api = SourceFinder().priorized_fit_islands(path, catalogue=catfile, rms=rms, bkg=0.0, stage=c["stage"],
+                                                       ratio=c["ratio"], doregroup=c["regroup"], docov=c["docov"], cores=1)
+            ro, ra_ = rows_of(out), rows_of(api)
+            if set(ro) != set(ra_) or any(not all((x == y) or (isinstance(x, float) and abs(x - y) <= 1e-9 * max(abs(x), 1e-30))
+                                                  for x, y in zip(ro[u], ra_[u])) for u in ro):
+                res.bad("catalogue-file-differs", "%s: the catalogue given as a file returns %d rows, as objects %d (or values differ)" % (
+                    what, len(ra_), len(ro)), **tags)
+            errs_ok = all(o_.err_ra == by_uuid[o_.uuid][0].err_ra for o_ in api) if c["stage"] == 1 else True
+            if not errs_ok:
+                res.bad("catalogue-file-errors", "%s: stage-1 uncertainties are not those of the catalogue file" % what, **tags)
+            argv = ["--priorized", c["stage"], "--input", catfile, "--forcerms", rms, "--forcebkg", 0.0]
+            if not c["regroup"]:
+                argv.append("--noregroup")
+            if not c["docov"]:
+                argv.append("--nocov")
+            if c["ratio"] is not None:
+                argv += ["--ratio", c["ratio"]]
+            rc, rows = run_aegean(path, d, "prior", argv)
+
+            def numrow(s_):
+                return (str(s_.uuid),) + tuple("nan" if (isinstance(v, float) and math.isnan(v)) else float(v) for v in
+                                               (s_.ra, s_.dec, s_.peak_flux, s_.a, s_.b, s_.pa, s_.flags, s_.island, s_.source))
+            if rc not in (0, None) or sorted(numrow(s_) for s_ in rows) != sorted(numrow(s_) for s_ in api):
+                res.bad("cli-priorized-differs", "%s: `aegean --priorized %d --input` wrote %d rows (rc=%r), the API returns %d "
+                        "for the same catalogue file (or their values differ)" % (what, c["stage"], len(rows), rc, len(api)), **tags)
+            res.label("cli")
         res.nontrivial = bool(len(fitted_par) == 2 or (nrej and nfit))
         res.label("stage-%d" % c["stage"], "regroup" if c["regroup"] else "noregroup")
         if len(cat) > 20:
